@@ -1414,11 +1414,15 @@ def isunresolvable(t: tp.Any) -> bool:
         >>> isunresolvable(...)
         True
     """
-    return t in _UNRESOLVABLE
+    if t in _UNRESOLVABLE:
+        return True
+    # A subscripted `Callable[...]` or `type[...]` is no more resolvable than the bare form.
+    return tp.get_origin(t) in _UNRESOLVABLE
 
 
 _UNRESOLVABLE = (
     object,
+    type,
     tp.Any,
     re.Match,
     constants.empty,
